@@ -600,6 +600,16 @@ package jd
 //@   ensures_bounded ret0 != 2 && ret0 != 3
 //@   carries C08
 
+//@ contract verifDiffAny
+//@   bounded
+//@   universe a verifKeyedDocs(0)
+//@   universe b verifKeyedDocs(0)
+//@   universe options [][]Option{{SetKeys("a")}, {SET, SetKeys("a")}, {SetKeys("a", "b")}, {MERGE}, {SET, MERGE}}
+//@   requires validNode(a) && validNode(b)
+//@   ensures_bounded [C05] !verifDupIdentity(a, options) && !verifDupIdentity(b, options) ==> (len(ret0) == 0) == a.Equals(b, options...)
+//@   ensures_bounded [C05] verifDupIdentity(a, options) || verifDupIdentity(b, options) ==> (len(ret0) == 0) == a.Equals(b, options...)
+//@   carries C05
+
 //@ contract verifKeyedDiff
 //@   bounded
 //@   cap 250000 3000000
